@@ -53,7 +53,7 @@ def workload_meta(wl):
     return {"kind": wl.get("kind")}
 
 KIND_WEIGHTS = {
-    "quick": [("fit", 32), ("zhit", 30), ("kk_ext", 13), ("kk_cnls", 12), ("bht", 5), ("mrq", 3), ("kk_de", 2), ("lm", 3)],
+    "quick": [("fit", 29), ("zhit", 27), ("kk_ext", 19), ("kk_cnls", 12), ("bht", 5), ("mrq", 3), ("kk_de", 2), ("lm", 3)],
     "thorough": [("fit", 30), ("zhit", 28), ("kk_ext", 15), ("kk_cnls", 12), ("bht", 5), ("mrq", 4), ("kk_de", 3), ("lm", 3)],
 }
 
